@@ -367,7 +367,7 @@ def check_grammar_against_oracle(ctx, terms, prods, start, num, words, label, la
         elif r is Internal:
             rec = {'key': 'parser-internal-error', 'expected': 'value or ParserException', 'actual': 'internal error'}
         elif inl and not sr:
-            rec = {'key': 'lookahead-nullable', 'expected': 'accepted (sentence of a conflict-free grammar)',
+            rec = {'key': 'rejects-sentence', 'expected': 'accepted (sentence of a conflict-free grammar)',
                    'actual': 'ParserException'}
         if rec:
             rec.update({'fn': 'LrParser.parse', 'grammar': label, 'args': list(w),
